@@ -37,7 +37,7 @@ ASSUMPTIONS = [
     "original where the module documents the setting as ignorable (hmm detection strictness, with a warning)",
 ]
 BOUNDS = {"quick": "depth 3; rule detection on 22 records, sideloading 10, NRPS/PKS 8, HMMer 8, TTA 8", "thorough": "depth 4; all layouts x rulesets x topologies"}
-REQUIRED_BUCKETS = {t: ["regen:identical", "regen:refused-tampered", "regen:option-changed-accepted", "regen:option-changed-refused",
+REQUIRED_BUCKETS = {t: ["regen:identical", "regen:refused-tampered", "regen:option-changed-accepted", "regen:option-changed-refused", "rules:hits-outside-protoclusters",
                         "effect:compared"] for t in ("quick", "thorough")}
 _REAL_RULE_NAMES = None
 
@@ -131,8 +131,7 @@ class RulesFamily(Family):
     def produce(self, options):
         rec = self.prepare(options)
         rule_results = _detect(rec, self.spec["rules"])
-        if self.spec.get("presub"):
-            assert rule_results.cdses_outside_clusters or self.spec["rules"] != "unmet", "universe: no outside hits"
+        self.outside_hits = len(rule_results.cdses_outside_clusters)
         results = hmm_detection.HMMDetectionResults(rec.id, rule_results, list(real_rule_names(make_options())), "relaxed")
         make_options(dict(zip(self.options_menu, [v[0] for v in self.options_menu.values()])))
         add_areas(rec, results)
@@ -212,6 +211,8 @@ class HmmerFamily(Family):
         rec = self.prepare(options)
         hits = []
         for index, gene in enumerate(rec.get_cds_features()):
+            if len(gene.translation) < 15:
+                continue    # too short for the fixed hit coordinates
             for start, end, score, evalue in ((1, 8, 30.0 + index, 1e-5), (9, 15, 5.0, 1e-3), (3, 12, 0.5, 5e-3)):
                 loc = gene.get_sub_location_from_protein_coordinates(start, end)
                 hits.append(hmmer.HmmerHit(location=str(loc), label="PFtest", locus_tag=gene.get_name(), domain="p450", evalue=evalue,
@@ -301,6 +302,8 @@ def explore_object(fam_name, spec, depth, res):
     case_base = {"family": fam_name, "spec": spec}
     try:
         original, rec_original = fam.produce(options_for(defaults))
+        if getattr(fam, "outside_hits", 0):
+            res.buckets["rules:hits-outside-protoclusters"] += 1
         text0 = save(original)
         effect0 = K.describe(rec_original)
     except Exception as err:  # pylint: disable=broad-except
